@@ -325,6 +325,7 @@ class Interp(object):
         self.loopinfo = {}        # lid -> (kind, iterable term, node)
         self.obj_class = {}       # term -> ClassInfo (known instances)
         self.obj_init = {}        # fresh object term -> initial content term
+        self.next_default = {}    # N term -> default given to next(it, default)
         self.unresolved = []      # call nodes that could not be resolved
         self.resolved = 0
         self.stack = []           # FuncInfo stack while inlining
@@ -1078,6 +1079,9 @@ class Interp(object):
                     return ('lit', (name, a[1]), neg)
             if isinstance(op, (ast.Is, ast.IsNot)):
                 for a, b in ((l, r), (r, l)):
+                    if b == NONE and a[0] == 'N' and self.next_default.get(a) == NONE:
+                        # `x = next(it, None)` ... `x is None`: the iterator was exhausted (its elements are objects, not None)
+                        return ('lit', ('exhausted', a[1]), not neg)
                     if b == NONE:
                         if a[0] == 'K':
                             return ('const', (a[1] is None) != neg)
@@ -1479,6 +1483,8 @@ class Interp(object):
             return res
         if name == 'next' and args:
             res = ('N', args[0], self._oid(node, fctx))
+            if len(args) > 1:
+                self.next_default[res] = args[1]
             st.effects.append(Effect('call', target=('BI', 'next'), op='next', args=args, kws=kws, node=node, result=res, extra='ext'))
             return res
         if name in ('list', 'dict', 'set', 'tuple', 'frozenset', 'collections.OrderedDict', 'OrderedDict', 'sorted', 'reversed'):
